@@ -6,7 +6,7 @@
    Model: Conc/Sched.v - threads ask for a lock, run a segment, ask for the next one; a state
    is DEADLOCKED when some thread is unfinished and no unfinished thread can be granted its
    request (RWMutex exclusion; a thread's own holds count, sync.RWMutex is not re-entrant). *)
-From Avfs Require Import Base Sched MemConc Lin ExclMkdir DeadlockFree Witness.
+From Avfs Require Import Base Sched MemConc Lin ExclMkdir DeadlockFree Witness LockProg.
 
 (* ---- concurrent ------------------------------------------------------------------------- *)
 
@@ -48,3 +48,22 @@ Qed.
    parent) reach, under the given schedule, a state where both wait for ever *)
 Theorem C07_refuted_rename_rename : reaches_deadlock w_rename_cross s_rename_cross = true.
 Proof. exact deadlock_rename_cross. Qed.
+
+(* REFUTED for OrefaFS (lock programs transcribed from orefafs.go / orefafs_internal.go and compared
+   with the instrumented code on every run, stream `lockprog`): *)
+
+(* Rename takes node locks and then the index lock; Mkdir (createNode) holds the index lock and then
+   takes the node lock of the parent *)
+Theorem C07_refuted_orefa_rename_mkdir :
+  lp_reaches_deadlock [orefa_rename_bg_ax; orefa_mkdir_a_x] [0; 0; 0; 1] = true.
+Proof. exact orefa_rename_mkdir_deadlock. Qed.
+
+(* Link (file, new parent, index) against Remove (index, parent, child) *)
+Theorem C07_refuted_orefa_link_remove :
+  lp_reaches_deadlock [orefa_link_af_bx; orefa_remove_a_f] [0; 0; 0; 1; 1] = true.
+Proof. exact orefa_link_remove_deadlock. Qed.
+
+(* two opposite cross-directory OrefaFS Renames *)
+Theorem C07_refuted_orefa_rename_rename :
+  lp_reaches_deadlock [orefa_rename_bg_ax; orefa_rename_af_bx] [0; 1; 0; 1] = true.
+Proof. exact orefa_rename_rename_deadlock. Qed.
